@@ -7,6 +7,7 @@ import builtins
 import io
 import os
 import shutil
+import threading
 from fractions import Fraction
 
 import fake_s3
@@ -613,9 +614,155 @@ def _run_hist(case, d):
             "ri_after_replay": os.path.exists(ri)}
 
 
+# ---------------------------------------------------------------------------------------------- file kinds / filesystems
+PSEUDO = ['/proc/version', '/proc/filesystems', '/proc/self/cmdline']     # st_size 0, content not empty
+
+
+def other_filesystem():
+    """a writable directory on another filesystem than the default temporary directory (None: there is none)"""
+    import tempfile
+    here = os.stat(tempfile.gettempdir()).st_dev
+    for cand in ('/dev/shm', '/run/user/%d' % os.getuid(), '/var/tmp', os.path.expanduser('~'), '/run/shm'):
+        try:
+            if os.path.isdir(cand) and os.access(cand, os.W_OK) and os.stat(cand).st_dev != here:
+                return cand
+        except OSError:
+            pass
+    return None
+
+
+def release_fifo(path):
+    """whoever is blocked opening the FIFO goes on (a reader then sees end of file)"""
+    try:
+        os.close(os.open(path, os.O_RDWR | os.O_NONBLOCK))
+    except OSError:
+        pass
+
+
+def feed_fifo(path, data):
+    """producer thread: opens the FIFO for writing (waits for the reader), writes the bytes, closes"""
+    def run():
+        try:
+            fd = os.open(path, os.O_WRONLY)
+            try:
+                view = memoryview(data)
+                while len(view):
+                    view = view[os.write(fd, view):]
+            finally:
+                os.close(fd)
+        except OSError:
+            pass            # the reader went away early (EPIPE): what was recorded shows it
+    t = threading.Thread(target=run)
+    t.daemon = True
+    t.start()
+    return t
+
+
+def run_env(case):
+    """kind "env": one full trip (input + output file handler, TapeRecorder, cassette) where the KIND of the intercepted
+    file (regular / pseudo file of procfs whose st_size is 0 / named pipe fed by a producer thread) and the FILESYSTEM of
+    the replayed path relative to the default temporary directory (same / another mount, in either direction) vary."""
+    import tempfile
+    d = scratch()
+    extra_dirs, fifos, out = [], [], {"status": "ok"}
+    old_tmp = tempfile.tempdir
+    watchdog = threading.Timer(20, lambda: [release_fifo(f) for f in fifos])
+    watchdog.daemon = True
+    try:
+        other = other_filesystem() if (case["replay_fs"] == "other" or case["tmpdir"] == "other") else None
+        if (case["replay_fs"] == "other" or case["tmpdir"] == "other") and other is None:
+            return {"status": "skipped", "why": "one writable filesystem only"}
+        content, out_content = filespec.expand(case["content"]), filespec.expand(case["out_content"])
+        ri, ro = os.path.join(d, 'ri.bin'), os.path.join(d, 'ro.bin')
+        src = case["source"]
+        if src == "pseudo":
+            ri = case["pseudo"]
+            if not os.path.exists(ri) or REAL_GETSIZE(ri) != 0:
+                return {"status": "skipped", "why": "no such pseudo file"}
+            with REAL_OPEN(ri, 'rb') as f:
+                content = f.read()
+            write_file(ro, case["out_content"])
+        elif src == "fifo":
+            os.mkfifo(ri)
+            os.mkfifo(ro)
+            fifos.extend([ri, ro])
+            watchdog.start()
+            threads = [feed_fifo(ri, content), feed_fifo(ro, out_content)]
+        else:
+            write_file(ri, case["content"])
+            write_file(ro, case["out_content"])
+        out["delivered_in"], out["delivered_out"] = filespec.show_bytes(content), filespec.show_bytes(out_content)
+        pdir = d
+        if case["replay_fs"] == "other":
+            pdir = tempfile.mkdtemp(prefix='files-scratch-%d-' % os.getpid(), dir=other)
+            extra_dirs.append(pdir)
+        pi, po = os.path.join(pdir, 'pi.bin'), os.path.join(pdir, 'po.bin')
+        name = 'path'
+        ih = InputInterceptionFileDataHandler(0, name, None)
+        oh = OutputInterceptionFileDataHandler(0, name, None)
+        cassette = make_cassette(case["cassette"], d)
+        saved = []
+        real_save = cassette.save_recording
+        cassette.save_recording = lambda recording: (saved.append(recording.id), real_save(recording))[1]
+        recorder = TapeRecorder(cassette)
+        recorder.enable_recording()
+
+        @recorder.static_intercept_input('fetch', capture_args=[], data_handler=ih)
+        def s_fetch(path):
+            return 'body'
+
+        @recorder.static_intercept_output('store', data_handler=oh)
+        def s_store(path):
+            return None
+
+        class Op(object):
+            @recorder.operation()
+            def execute(self, in_path, out_path):
+                s_fetch(in_path) if case["in_mode"] == "pos" else s_fetch(path=in_path)
+                s_store(out_path) if case["in_mode"] == "pos" else s_store(path=out_path)
+                return 'done'
+
+        Op().execute(ri, ro)
+        if src == "fifo":
+            for f in fifos:
+                release_fifo(f)
+            for t in threads:
+                t.join(5)
+        if len(saved) != 1:
+            return dict(out, status="discarded" if not saved else "saved-%d" % len(saved))
+        if case["tmpdir"] == "other":
+            tdir = tempfile.mkdtemp(prefix='files-scratch-%d-tmp-' % os.getpid(), dir=other)
+            extra_dirs.append(tdir)
+            tempfile.tempdir = tdir            # what TMPDIR pointing at another mount amounts to
+        write_file(po, case["out_content"])
+        try:
+            playback = recorder.play(saved[0], lambda r: Op().execute(pi, po))
+        except Exception as ex:
+            out["status"] = "replay-raises"
+            out["replay_raises"] = exc_name(ex)
+            out["cause"] = repr(getattr(ex, '__cause__', None) or ex)[:200]
+        out["restored"] = filespec.show_bytes(read_file(pi)) if os.path.exists(pi) else None
+        if out["status"] == "ok":
+            for which, outputs in (("holder_rec", playback.recorded_outputs), ("holder_play", playback.playback_outputs)):
+                vals = [o.value for o in outputs if 'store' in o.key]
+                try:
+                    out[which] = filespec.show_bytes(oh.restore_output_from_recording(vals[0]).file_content)
+                except Exception as ex:
+                    out[which] = {"raises": exc_name(ex)}
+        return out
+    finally:
+        tempfile.tempdir = old_tmp
+        watchdog.cancel()
+        for f in fifos:
+            release_fifo(f)
+        for x in extra_dirs + [d]:
+            shutil.rmtree(x, ignore_errors=True)
+        fake_s3.reset()
+
+
 def run_c20(case):
     return {"b64": run_b64, "above": run_above, "path": run_path, "trip": run_trip, "seq": run_seq,
-            "hist": run_hist}[case["kind"]](case)
+            "hist": run_hist, "env": run_env}[case["kind"]](case)
 
 
 if __name__ == '__main__':
